@@ -3,6 +3,7 @@
 //! sharing, key derivation) and C12 (encrypted amounts).
 //! See /verif/DESIGN.md section 5 and /verif/harness/ENGINE_GUIDE.md.
 mod c06;
+mod c19;
 mod common;
 
 use vmon_core::{ChildCtx, Engine, Plan, Shard, Tier};
@@ -18,7 +19,7 @@ const SOUNDNESS: &str = "cryptographic soundness is only probed with the cheatin
 impl Engine for E {
     fn name(&self) -> &'static str { "eng-sig" }
 
-    fn props(&self) -> Vec<&'static str> { vec!["C06"] }
+    fn props(&self) -> Vec<&'static str> { vec!["C06", "C19"] }
 
     fn plan(&self, prop: &str, tier: Tier) -> Plan {
         let quick = tier == Tier::Quick;
@@ -77,6 +78,62 @@ impl Engine for E {
                     ("undemanded.partial_credential", 4_000 * m),
                 ]);
             }
+            "C19" => {
+                p.cases = if quick { 200 } else { 2400 };
+                p.timeout_s = if quick { 900 } else { 5400 };
+                p.rule = "case = one construction history of one kind (idx mod 10: BLS single 3x3 matrix + bit flips; aggregate over distinct messages with mutations/duplicates/empty set; aggregate of many signers of one message, sizes 1,2,3,17,150,151; proof of possession; VRF 3 keys x 3 messages full 81-entry matrix + determinism + bit flips; PS known/blind issuance with alternative messages; ed25519 dlog proof); evaluations = verifier verdicts compared with the construction history; distinct_nontrivial = distinct cases (hash of the produced signature/proof)".into();
+                p.assumptions = s(&[
+                    "the construction history (which keys signed which messages) is the ground truth; mismatching queries are expected to be rejected up to coincidences of probability ~2^-250",
+                    "documented behaviour is the oracle where the functions document it: verify_aggregate_sig rejects duplicate messages and the empty set, trusted_keys rejects the empty key list, hybrid is only fed inputs inside its precondition",
+                    "PS commitments for blind issuance are computed by the harness as g^r * prod Y_i^m_i with the library's group operations",
+                    "a perturbed byte string that no longer decodes counts as rejected",
+                    SOUNDNESS,
+                ]);
+                let m = if quick { 1 } else { 8 };
+                p.floors = floors(&[
+                    ("agg.size.150", if quick { 0 } else { 100 }),
+                    ("agg.size.151", if quick { 0 } else { 100 }),
+                    ("accept.expected", 8_000 * m),
+                    ("reject.expected", 35_000 * m),
+                    ("bls.verify.matrix", 1_500 * m),
+                    ("bls.flip.message", 350 * m),
+                    ("bls.perturb.signature", 350 * m),
+                    ("agg.verify_aggregate_sig.exact", 250 * m),
+                    ("agg.hybrid.exact", 250 * m),
+                    ("agg.trusted_keys.same_msg.exact", 120 * m),
+                    ("agg.hybrid.same_msg.exact", 120 * m),
+                    ("agg.verify_aggregate_sig.dup_message.dupmsg", 150 * m),
+                    ("agg.hybrid.dup_message", 150 * m),
+                    ("agg.trusted_keys.same_msg.dup_key", 80 * m),
+                    ("agg.verify_aggregate_sig.empty", 150 * m),
+                    ("agg.trusted_keys.empty", 80 * m),
+                    ("agg.verify_aggregate_sig.mut.other_key", 250 * m),
+                    ("agg.hybrid.mut.other_key", 250 * m),
+                    ("agg.trusted_keys.same_msg.mut.other_key", 120 * m),
+                    ("agg.same_msg.size.150", 10 * m),
+                    ("agg.same_msg.size.151", 10 * m),
+                    ("agg.size.17", 25 * m),
+                    ("max.hybrid_group", 151),
+                    ("pop.same_key_same_context", 120 * m),
+                    ("pop.other_key", 120 * m),
+                    ("pop.other_context", 250 * m),
+                    ("pop.flip.proof", 350 * m),
+                    ("vrf.verify.matrix", 20_000 * m),
+                    ("vrf.determinism", 2_000 * m),
+                    ("vrf.flip.proof", 1_000 * m),
+                    ("vrf.flip.key", 600 * m),
+                    ("vrf.flip.message", 1_500 * m),
+                    ("ps.known.verify.same", 250 * m),
+                    ("ps.blind.verify.same", 250 * m),
+                    ("ps.blind.verify.one_entry_changed", 180 * m),
+                    ("ps.blind.verify.other_key", 250 * m),
+                    ("ps.blind.wrong_randomness", 250 * m),
+                    ("dlog.same", 120 * m),
+                    ("dlog.other_key", 120 * m),
+                    ("dlog.other_context", 120 * m),
+                    ("dlog.flip.proof", 450 * m),
+                ]);
+            }
             _ => {}
         }
         p
@@ -85,6 +142,7 @@ impl Engine for E {
     fn run_child(&self, ctx: &ChildCtx, out: &mut Shard) {
         match ctx.prop.as_str() {
             "C06" => c06::run(ctx, out),
+            "C19" => c19::run(ctx, out),
             _ => out.inconclusive.push("unknown property".into()),
         }
     }
